@@ -99,6 +99,9 @@ func genC09(t *rapid.T) *C09Case {
 				r.Trans = rapid.SliceOfN(rapid.SampledFrom([]string{"lowercase", "trim", "removeNulls"}), 1, 2).Draw(t, "trans")
 			}
 			genC09Actions(t, r, !r.Multi, c.AccInc, r.ID)
+			if rapid.IntRange(0, 7).Draw(t, "plainskip") == 0 {
+				r.Skip = rapid.IntRange(1, 2).Draw(t, "pskipn")
+			}
 			if !r.Multi && rapid.IntRange(0, 3).Draw(t, "msg") == 0 {
 				r.Acts = append(r.Acts, rapid.SampledFrom([]string{"msg:'hit %{MATCHED_VAR} by %{rule.id}'", "msg:'w=%{tx.w1} at %{MATCHED_VAR_NAME}'", "logdata:'%{MATCHED_VAR}'"}).Draw(t, "msgv"))
 			}
@@ -114,6 +117,9 @@ func genC09(t *rapid.T) *C09Case {
 			}
 			if rapid.IntRange(0, 3).Draw(t, "chaindeny") == 0 {
 				r.Disr = "deny"
+			} else if rapid.IntRange(0, 2).Draw(t, "chainskip") == 0 {
+				// the starter's flow action: once per completed chain, in every phase, interrupted or not
+				r.Skip = rapid.IntRange(1, 2).Draw(t, "skipn")
 			}
 		case kind == 8: // SecAction
 			r.SecAction = true
